@@ -329,6 +329,11 @@ r_buf_rpos_check(r_buf_p r_buf, r_buf_rpos_p rpos, size_t *drop_size_ret) {
 		/* Out of range: slow reader. */
 		drop_size = (r_buf->size + r_buf_iovec_calc_size(&r_buf->iov[rpos->iov_index],
 		    (1 + r_buf->iov_index - rpos->iov_index)));
+		/* Resync: all up to wpos is dropped, continue from block
+		 * that will be written next. */
+		rpos->iov_off = 0;
+		rpos->iov_index = r_buf_wr_next_index(r_buf);
+		rpos->round_num = r_buf->round_num;
 		if (NULL != drop_size_ret) {
 			(*drop_size_ret) = drop_size;
 		}
